@@ -82,3 +82,13 @@ Proof. vm_compute. auto. Qed.
    no well-formed field reaches it (C15_setter_total) *)
 Example data_address_wrap : s_uint W64 (mkS [1; 2; 3; 4; 5; 6; 7; 8] []) (2 ^ 32 - 4) = Escape.
 Proof. vm_compute. reflexivity. Qed.
+
+
+(* ObjectSize with the product taken in uint16: a struct of 8192 data words would be allocated
+   with DataSize 0, one of 8200 words with 64 bytes *)
+Example objsize_u16_refuted :
+  gen_objsize_u16 (mkN 1 8192 1 false 0 0 []) = (0, 1) /\
+  gen_objsize (mkN 1 8192 1 false 0 0 []) = (65536, 1) /\
+  gen_objsize_u16 (mkN 1 8200 1 false 0 0 []) = (64, 1) /\
+  gen_objsize_u16 (mkN 1 8191 1 false 0 0 []) = gen_objsize (mkN 1 8191 1 false 0 0 []).
+Proof. vm_compute. auto. Qed.
